@@ -407,6 +407,11 @@ func (g *boxGen) evNsRelabel() boxUserEvent {
 
 func (cb *cbox) evResync() boxUserEvent {
 	return boxUserEvent{Kind: "resync", Apply: func(s *boxStore) string {
+		if cb.cur == nil {
+			// in the controller nothing can ask for a full re-sync before the pools were delivered
+			// (the only sources are SetPools and service handlers behind the initial-load gate)
+			return "skipped (no configuration delivered to this instance yet)"
+		}
 		cb.k.Enqueue("svc", boxReloadReq)
 		return "forced full re-sync"
 	}}
